@@ -226,7 +226,16 @@ def normalise_branches(fn):
             for i, st in enumerate(block):
                 if not isinstance(st, ast.If):
                     continue
-                if st.orelse and isinstance(st.test, ast.UnaryOp) and isinstance(st.test.op, ast.Not):
+                if st.orelse and _ends(st.orelse) and not _ends(st.body):
+                    # the terminating arm first, as a guard clause; the other arm follows the statement
+                    neg = st.test.operand if isinstance(st.test, ast.UnaryOp) and isinstance(st.test.op, ast.Not) else \
+                        ast.copy_location(ast.UnaryOp(op=ast.Not(), operand=st.test), st.test)
+                    rest = st.body
+                    st.test, st.body, st.orelse = neg, st.orelse, []
+                    block[i + 1:i + 1] = rest
+                    changed = True
+                    break
+                if st.orelse and not _ends(st.body) and isinstance(st.test, ast.UnaryOp) and isinstance(st.test.op, ast.Not):
                     st.test = st.test.operand
                     st.body, st.orelse = st.orelse, st.body
                     changed = True
@@ -243,8 +252,6 @@ def normalise_branches(fn):
                     block[i + 1:i + 1] = rest
                     changed = True
                     break
-                if st.orelse and _ends(st.orelse) and not _ends(st.body) and False:
-                    pass
             if changed:
                 n += 1
                 break
